@@ -94,3 +94,80 @@ def carried_reads(loop: ast.For) -> List[Tuple[str, ast.AST]]:
 
     walk(body, set(), {})
     return out
+
+
+def stale_loop_variable_reads(ctx, prefixes):
+    """Reads of a name that is bound ONLY as the target of `for` loops, made inside some other loop that does not bind it: the value
+    is whatever the earlier loop left behind (its last item), the same for every iteration of the loop that reads it.
+    Yields (func, name node, binding loop).  (A read after the loop that is not inside any loop - `if k == max_iteration` - is the
+    ordinary idiom and is not reported.)"""
+    import ast as _ast
+    from .astutil import assignments
+    from .index import own_nodes, parents
+    for f in ctx.ix.funcs.values():
+        if not f.module.name.startswith(tuple(prefixes)):
+            continue
+        binds = assignments(f.node)
+        params = {p.arg for p in f.all_params}
+        for x in own_nodes(f.node):
+            if not (isinstance(x, _ast.Name) and isinstance(x.ctx, _ast.Load)):
+                continue
+            bs = binds.get(x.id, [])
+            if not bs or x.id in params or not all(isinstance(b, _ast.For) for b in bs):
+                continue
+            anc = [p for p in parents(x) if isinstance(p, (_ast.For, _ast.While))]
+            if not anc:
+                continue
+            if any(isinstance(p, _ast.For) and x.id in {z.id for z in _ast.walk(p.target) if isinstance(z, _ast.Name)} for p in anc):
+                continue
+            yield f, x, bs[0]
+
+
+def count_loops(ctx, prefixes):
+    import ast as _ast
+    from .index import own_nodes
+    return sum(1 for f in ctx.ix.funcs.values() if f.module.name.startswith(tuple(prefixes)) for n in own_nodes(f.node) if isinstance(n, _ast.For))
+
+
+def per_iteration_results(ctx, prefixes):
+    """Loops that compute a value per iteration and collect the values in a list created just before the loop.
+    Yields (func, loop, list name, 'inside' | 'after-only'): 'after-only' means the only append of a loop-computed value to that list
+    is placed AFTER the loop, so that just the last iteration's value is kept."""
+    import ast as _ast
+    from .index import own_nodes
+    for f in ctx.ix.funcs.values():
+        if not f.module.name.startswith(tuple(prefixes)):
+            continue
+        for lp in own_nodes(f.node):
+            if not isinstance(lp, (_ast.For, _ast.While)):
+                continue
+            blk = getattr(lp, "_parent", None)
+            body = None
+            for fld in ("body", "orelse", "finalbody"):
+                b = getattr(blk, fld, None)
+                if isinstance(b, list) and any(lp is x for x in b):
+                    body = b
+            if body is None:
+                continue
+            i = next(k for k, x in enumerate(body) if x is lp)
+            assigned = {t.id for s_ in _ast.walk(lp) if isinstance(s_, _ast.Assign) for t in s_.targets if isinstance(t, _ast.Name)}
+            inits = {t.id for s_ in body[:i] if isinstance(s_, _ast.Assign) and isinstance(s_.value, _ast.List) and not s_.value.elts
+                     for t in s_.targets if isinstance(t, _ast.Name)}
+
+            def appends(nodes, L=None):
+                out = []
+                for n in nodes:
+                    for c in _ast.walk(n):
+                        if isinstance(c, _ast.Call) and isinstance(c.func, _ast.Attribute) and c.func.attr == "append" and isinstance(c.func.value, _ast.Name) \
+                                and len(c.args) == 1 and isinstance(c.args[0], _ast.Name) and c.args[0].id in assigned and c.func.value.id in inits:
+                            out.append(c.func.value.id)
+                return out
+            inside = set(appends([lp]))
+            after = set(appends(body[i + 1:i + 3]))
+            for L in sorted(inside):
+                yield f, lp, L, "inside"
+            for L in sorted(after - inside):
+                any_inside = any(isinstance(c, _ast.Call) and isinstance(c.func, _ast.Attribute) and c.func.attr in ("append", "extend", "insert")
+                                 and isinstance(c.func.value, _ast.Name) and c.func.value.id == L for c in _ast.walk(lp))
+                if not any_inside:
+                    yield f, lp, L, "after-only"
